@@ -94,6 +94,7 @@ type TokVal struct {
 	RealOK         bool    `json:"realok"`
 	WriterBytewise bool    `json:"writerbytewise"`
 	ASCII          bool    `json:"ascii"`
+	Skip           bool    `json:"skip,omitempty"` // not a value observation (only its pair is meant)
 }
 type TokPair struct {
 	P []int `json:"p"`
@@ -408,6 +409,16 @@ func runBloomCase(id int, in *BloomIn, work string) *BloomOut {
 	}
 	if !in.Vertical {
 		out.Tok = tokProbe(in)
+		if id == 0 {
+			// fixed adversarial pairs for the finder model: self-overlapping phrases (the search resumes BEHIND a rejected
+			// occurrence), empty strings, separator-only phrases, non-ASCII neighbours
+			for _, pv := range [][2]string{{"a a", "xa a a"}, {"aa", "aaa"}, {"aa", "xaaa"}, {"ab ab", "xab ab ab"}, {"a.a", "ba.a.a"},
+				{" ", "a b"}, {"", ""}, {"", "a"}, {"a", ""}, {"/", "a/b"}, {"b", "ab"}, {"a", "a\xe5\x8d\x8e"}, {"\xe5\x8d\x8e", "x\xe5\x8d\x8ey"},
+				{"a", "ba ab a"}, {"aba", "xababa aba"}, {"a-a", "a-a-a"}, {"-a", "b-a"}, {"a-", "a-b"}} {
+				out.Tok.Pairs = append(out.Tok.Pairs, TokPair{P: bytesOf(pv[0]), V: bytesOf(pv[1]), M: phraseMatches(pv[1], pv[0])})
+				out.Tok.Vals = append(out.Tok.Vals, TokVal{V: bytesOf(pv[1]), Toks: nil, RealOK: true, WriterBytewise: true, ASCII: true, Skip: true})
+			}
+		}
 	}
 	var file interface{} = &tsspFile{p: dir + "/00000001-0001-00000001.tssp"}
 	if in.Vertical {
